@@ -14,6 +14,19 @@ CHECKS = {
             "DESIGN.md §2 C14"),
 }
 
+CHECKS.update({
+    "C01": ("fault_enumeration",
+            "reply-ownership tagging at the socket_module seam (server-side tags on every reply byte) under enumerated fault plans and delivery schedules",
+            "The real Client/PooledClient/HashClient talk through their socket_module seam to a reference server that tags every reply byte with the public call that caused it. Every socket call of every public data operation is faulted once with every applicable fault kind (timeouts, resets, EOF, EINTR, error/garbage/wrong-kind reply lines per command, truncation at every byte then EOF or stall), under whole/random/single-byte delivery, followed by probes on the same object; a byte delivered to another call (STALE_READ), own reply left unread on an open connection at normal return (UNREAD_REPLY) or a wait that can never end (BLOCKED_RECV) is a violation. Exhaustive over single-fault plans per operation; two-fault plans and random multi-op histories sampled.",
+            "Trusts the FakeNet/RefServer model (synchronous replies, atomic sendall); says nothing about servers that append junk after a complete reply, nor about more than two faults per history beyond the sampled ones.",
+            "DESIGN.md §2 C01"),
+    "C10": ("fault_enumeration",
+            "BaseException injection at every socket call + reply-ownership tagger + pool.used monitor",
+            "KeyboardInterrupt, SystemExit and a BaseException subclass are raised from every socket call of every public operation (complete enumeration of crash points for single-operation histories on Client, PooledClient with max_pool_size 1 and 2, HashClient pooled or not, with and without ignore_exc); the interrupt must reach the caller, and in the follow-up calls the C01 ownership monitor must stay silent, pool.used must be empty after each call unwound and no call may fail with pool exhaustion.",
+            "Interrupts are raised inside socket calls (where signals/gevent timeouts surface during blocking I/O), not between arbitrary bytecodes; trusts the FakeNet/RefServer model.",
+            "DESIGN.md §2 C10"),
+})
+
 NOT_YET = "check not built yet in this round (runtime-monitoring design in DESIGN.md §2); will be claimed once its monitor exists"
 
 manifest = {
